@@ -13,7 +13,8 @@ open PromVerif.Py PromVerif.Model PromVerif.Model.Escape PromVerif.Model.Validat
 def stampStr (sec nsec : Int) : Str :=
   let body := match nsec with
     | .ofNat k => zpad 9 (decDigits k)
-    | .negSucc k => '-' :: zpad 8 (decDigits (k + 1))
+    | .negSucc k =>
+      if Generated.Expo.stampAbsNsec then zpad 9 (decDigits (k + 1)) else '-' :: zpad 8 (decDigits (k + 1))
   intStr sec ++ ['.'] ++ body
 
 /-- `str(timestamp)` -/
